@@ -102,6 +102,25 @@ def pipe_program(rng):
             'till': None}
 
 
+def crowd_program(rng):
+    """hundreds of activities: many distinct dates pending at once and long same-time queues"""
+    gen = Gen(rng, weights=FANOUT)
+    gen.program()
+    roots = []
+    size = rng.choice([70, 150, 300])
+    order = list(range(size))
+    rng.shuffle(order)
+    for index in order:
+        steps = [{'op': 'wait', 'n': {'k': 'delay', 'd': 0.125 * (1 + index % rng.choice([7, 97]))},
+                  'id': gen.next_id('s')},
+                 {'op': 'setflag', 'f': index % 3, 'v': index % 2 == 0, 'id': gen.next_id('s')}]
+        if index % 4 == 0:
+            steps.append({'op': 'wait', 'n': {'k': 'ge', 't': 40 - 0.125 * index},
+                          'id': gen.next_id('s')})
+        roots.append({'name': 'm%d' % index, 'steps': steps})
+    return {'objects': gen.objects, 'roots': roots, 'start': 0, 'till': None}
+
+
 D15_CANARY = {
     'objects': {}, 'start': 0, 'till': None,
     'roots': [{'name': 'r0', 'steps': [
@@ -126,6 +145,8 @@ def build(seed, index):
         return fanout_program(rng)
     if rng.random() < 0.12:
         return pipe_program(rng)
+    if rng.random() < 0.03:
+        return crowd_program(rng)
     # a few programs start at a date so large that small positive delays are lost in float
     # rounding (now + delay == now): the kernel then queues a *new* step of the same date
     gen = Gen(rng, weights=FANOUT, max_roots=6, max_steps=5,
